@@ -486,7 +486,7 @@ impl Check for C15 {
         "fault_runs"
     }
     fn rule(&self) -> String {
-        format!("jobs = BMC (k=3; all bad states at once, or one at a time), PDR (jobs on profiles with unsat cores are chosen such that the run really asks for a core) and a direct SolverContext session (declare/assert/check-sat/get-value/push/pop/check-sat-assuming/get-unsat-assumptions/restart) on generated systems, each under one of the four solver profiles; a fault-free run counts the N response-bearing points of the conversation (check-sat, check-sat-assuming, get-value, get-unsat-assumptions; counted across restart() through a shared counter file); then for EVERY position n < N (a sample of positions for the job on a shipped design) and EVERY fault kind of {:?} the job is re-run in a child process with the fault armed in the reference solver. Oracle: the call must return an error (or Unknown) - never Success/Fail, never a panic; for error replies the returned text must contain the injected message as one contiguous piece; the child must return within 1000 x fault-free time (clamped to 12..60 s), otherwise /proc is inspected: solver process gone or cpu burning = hang (violation), solver alive and idle = inconclusive. Commands that bear no response (declare/define/assert/push/pop/set-*) get three more fault kinds {:?} at the first, the last-before-a-response and 3 (thorough 10) random positions, plus one position after the last response: before the last response the call must not report Success/Fail and must carry the message the solver printed; after it only no-hang/no-panic is demanded. Mode unknown: BMC and PDR jobs run in-process through a SolverContext (an implementation of the public trait around the real text-protocol context) that answers Unknown to exactly one satisfiability query, for EVERY query of the conversation in turn - the text protocol itself turns the word `unknown` into an error before the engines see it, so this is the only way their Unknown handling is reached. An engine may carry on after an undecided query only soundly: no panic, a definite verdict must be the fault-free one (BMC jobs are mostly failing systems, where taking `unknown` for `unsat` loses the counterexample), and the frame traces of PDR (hook H3) must still satisfy the invariants of C10 on the explicit state space. One job in seven is BMC (k=2) on a shipped design of 20-250 kB whose conversation has a run of at least 24 kB of answerless commands between two responses; two of the fault positions lie early in the longest such run, and for these faults the pipe into the solver is shrunk to 4 kB so that the client cannot have written the rest of the run before the solver dies. distinct_nontrivial = distinct (job, position, kind) triples executed.", FAULT_KINDS, CMD_FAULT_KINDS)
+        format!("jobs = BMC (k=3; all bad states at once, or one at a time), PDR (jobs on profiles with unsat cores are chosen such that the run really asks for a core) and a direct SolverContext session (declare/assert/check-sat/get-value/push/pop/check-sat-assuming/get-unsat-assumptions/restart) on generated systems, each under one of the four solver profiles; a fault-free run counts the N response-bearing points of the conversation (check-sat, check-sat-assuming, get-value, get-unsat-assumptions; counted across restart() through a shared counter file); then for EVERY position n < N (a sample of positions for the job on a shipped design) and EVERY fault kind of {:?} the job is re-run in a child process with the fault armed in the reference solver. Oracle: the call must return an error (or Unknown) - never Success/Fail, never a panic; for error replies the returned text must contain the injected message as one contiguous piece; the child must return within 1000 x fault-free time (clamped to 12..60 s), otherwise /proc is inspected: solver process gone or cpu burning = hang (violation), solver alive and idle = inconclusive. Commands that bear no response (declare/define/assert/push/pop/set-*) get three more fault kinds {:?} at the first, the last-before-a-response and 3 (thorough 10) random positions, plus one position after the last response: where a response follows in the same solver session the call must not report Success/Fail and must carry the message the solver printed; elsewhere only no-hang/no-panic is demanded. Mode unknown: BMC and PDR jobs run in-process through a SolverContext (an implementation of the public trait around the real text-protocol context) that answers Unknown to exactly one satisfiability query, for EVERY query of the conversation in turn - the text protocol itself turns the word `unknown` into an error before the engines see it, so this is the only way their Unknown handling is reached. An engine may carry on after an undecided query only soundly: no panic, a definite verdict must be the fault-free one (BMC jobs are mostly failing systems, where taking `unknown` for `unsat` loses the counterexample), and the frame traces of PDR (hook H3) must still satisfy the invariants of C10 on the explicit state space. One job in seven is BMC (k=2) on a shipped design of 20-250 kB whose conversation has a run of at least 24 kB of answerless commands between two responses; two of the fault positions lie early in the longest such run, and for these faults the pipe into the solver is shrunk to 4 kB so that the client cannot have written the rest of the run before the solver dies. distinct_nontrivial = distinct (job, position, kind) triples executed.", FAULT_KINDS, CMD_FAULT_KINDS)
     }
     fn assumptions(&self) -> Vec<String> {
         vec!["every injected fault hits a response the job really waits for (positions are enumerated from a fault-free run of the same deterministic job)".into()]
@@ -562,7 +562,7 @@ impl Check for C15 {
         let mut points: Vec<u64> = (0..npoints).collect();
         if job == "bmc-corpus" && npoints > 8 {
             rng.shuffle(&mut points);
-            points.truncate(sh.tier.pick(1, 12));
+            points.truncate(sh.tier.pick(1, 4));
             points.push(0);
             points.push(npoints - 1);
             points.sort();
@@ -621,6 +621,24 @@ impl Check for C15 {
         let toks: Vec<&str> = seq.split_whitespace().collect();
         let ncmds = toks.iter().filter(|t| t.starts_with('C')).count() as u64;
         let before_last_response = toks.iter().rposition(|t| *t == "R").map(|p| toks[..p].iter().filter(|t| t.starts_with('C')).count() as u64).unwrap_or(0);
+        // a fault at a command is only bound to be noticed if the client reads another response in the SAME solver
+        // session (after restart() the old process and whatever it printed are gone)
+        let mut noticed: Vec<bool> = vec![];
+        {
+            let mut pending: Vec<usize> = vec![];
+            for t in toks.iter() {
+                if t.starts_with('C') {
+                    pending.push(noticed.len());
+                    noticed.push(false);
+                } else if *t == "R" {
+                    for i in pending.drain(..) {
+                        noticed[i] = true;
+                    }
+                } else {
+                    pending.clear();
+                }
+            }
+        }
         sh.count("answerless_commands_in_fault_free_runs", ncmds);
         // the longest run (in bytes) of such commands between two responses: (first command index, commands, bytes)
         let mut longest = (0u64, 0u64, 0u64);
@@ -648,7 +666,7 @@ impl Check for C15 {
         if before_last_response > 0 {
             positions.push(0);
             positions.push(before_last_response - 1);
-            for _ in 0..if job == "bmc-corpus" { sh.tier.pick(1, 6) } else { sh.tier.pick(3, 10) } {
+            for _ in 0..if job == "bmc-corpus" { sh.tier.pick(1, 3) } else { sh.tier.pick(3, 10) } {
                 positions.push(rng.below(before_last_response));
             }
             // early in the longest run: everything the client writes afterwards goes to a solver that is gone
@@ -667,7 +685,7 @@ impl Check for C15 {
                 let o = run_child(sh, &spec, Some((kind, m)), &counter, budget);
                 sh.count("fault_runs", 1);
                 sh.count("command_fault_runs", 1);
-                let decisive = m < before_last_response;
+                let decisive = m < before_last_response && noticed.get(m as usize).copied().unwrap_or(false);
                 sh.hist("fault_runs_by_job_and_point", &format!("{job} @ command{}", if decisive { "" } else { " after the last response" }));
                 sh.distinct(util::mix(&[util::hash_str(&spec), 1_000_000 + m, util::hash_str(kind)]));
                 sh.hist("outcomes", &format!("{kind} -> {}", o.verdict));
